@@ -22,7 +22,7 @@ QUICK_SHARDS = 4
 THOROUGH_SHARDS = 16
 
 CLASSES = [1, 3, 4, 7, 0x25, 0x31, 0xff, 0]
-SUBS = [0x40c, 0x40e, 0x140, 0x301, 0x701, 0x2502, 0x1f07, 0x0, 0xffff]
+SUBS = [0x40c, 0x40e, 0x401, 0x4ff, 0x140, 0x301, 0x701, 0x2502, 0x1f07, 0x0, 0xffff]
 
 
 def gen_file(rng, n_records=None, n_logs=None, kind=None):
@@ -70,7 +70,8 @@ def gen_config(rng, f):
     present_tids = sorted({wire.ref_decode(r)['tid'] for r in f['records']}) or [5]
     tid = rng.choice((None, None, 0, rng.choice(present_tids), 999999))
     classes = rng.choice(([], [], [4], [3, 4], [7, 0x25, 1], [0xff], [0], [200], [4, 4]))
-    subs = rng.choice(([], [], [0x40c], [0x40c, 0x140], [0x301, 0x701, 0x2502], [0x9999], [0], [0x40e, 0x40e], [0xffff]))
+    subs = rng.choice(([], [], [0x40c], [0x40c, 0x140], [0x301, 0x701, 0x2502], [0x9999], [0], [0x40e, 0x40e], [0xffff],
+                      [0x40c, 0x401], [0x401, 0x140, 0x40c, 0x4ff], [0x4ff, 0x400, 0x40c]))      # several subclasses of one class
     as_tuple = rng.random() < 0.3
     return {'tid': tid, 'classes': tuple(classes) if as_tuple else list(classes),
             'subs': tuple(subs) if as_tuple else list(subs)}
